@@ -58,6 +58,7 @@ IndTree = _create("C17IndTree", gp.PrimitiveTree, fitness=FitMin)
 import array as _array  # noqa: E402
 IndCMA = _create("C17IndCMA", _array.array, typecode="d", fitness=FitMin)      # array-based individual
 IndCMA2 = _create("C17IndCMA2", list, fitness=FitMin2)
+IndNP32 = _create("C17IndNP32", numpy.ndarray, fitness=FitMin)                 # float32 numpy individual
 
 # ----------------------------------------------------------------------------------------------------
 # evaluation functions (module level: picklable for process pools); all pure
@@ -78,6 +79,11 @@ def eval_dtlz2(ind):
 
 def eval_sphere(ind):
     return benchmarks.sphere(ind)
+
+
+def eval_np_sphere(ind):
+    """Computed in the individual's own element type (float32 arithmetic for a float32 individual)."""
+    return (float((ind * ind).sum() + ind[0] * numpy.float32(0.1)),)
 
 
 def eph_int():
@@ -350,12 +356,13 @@ class NSGA3Mem(Family):
 
 class GPEph(Family):
     name = "gp_eph"
-    MU = 10
+    MU = 12
+    NGEN = 6
     SMALL = {"MU": 4}
 
     def setup(self):
         tb = self.toolbox
-        tb.register("expr", gp.genHalfAndHalf, pset=PSET, min_=1, max_=2)
+        tb.register("expr", gp.genHalfAndHalf, pset=PSET, min_=2, max_=3)
         tb.register("individual", tools.initIterate, IndTree, tb.expr)
         tb.register("population", tools.initRepeat, list, tb.individual)
         tb.register("evaluate", eval_symbreg)
@@ -364,8 +371,12 @@ class GPEph(Family):
         tb.register("expr_mut", gp.genFull, min_=0, max_=2)
         tb.register("mutate", gp.mutUniform, expr=tb.expr_mut, pset=PSET)
         tb.register("mutate_eph", gp.mutEphemeral, mode="one")
-        tb.decorate("mate", gp.staticLimit(key=operator.attrgetter("height"), max_value=6))
-        tb.decorate("mutate", gp.staticLimit(key=operator.attrgetter("height"), max_value=6))
+        tb.register("mutate_node", gp.mutNodeReplacement, pset=PSET)
+        tb.register("mutate_insert", gp.mutInsert, pset=PSET)
+        tb.register("mutate_shrink", gp.mutShrink)
+        for alias in ("mate", "mutate", "mutate_insert"):
+            # tight limit: the fallback `random.choice(keep_inds)` of staticLimit runs in every generation
+            tb.decorate(alias, gp.staticLimit(key=operator.attrgetter("height"), max_value=3))
 
     def init(self, seed, mapper=map):
         seed_all(seed)
@@ -381,10 +392,55 @@ class GPEph(Family):
         st["gen"] += 1
         off = tb.select(st["population"], len(st["population"]))
         off = algorithms.varAnd(off, tb, 0.5, 0.3)
-        for ind in off:
-            if random.random() < 0.3:
-                tb.mutate_eph(ind)
-                del ind.fitness.values
+        # the other GP mutations in rotation: node replacement, ephemeral, insert, shrink
+        extra = [tb.mutate_eph, tb.mutate_insert, tb.mutate_shrink]
+        for i, ind in enumerate(off):
+            if random.random() < 0.7:                       # node replacement: the candidate list is drawn from
+                off[i], = tb.mutate_node(off[i])
+                del off[i].fitness.values
+            if random.random() < 0.4:
+                off[i], = extra[(i + st["gen"]) % 3](off[i])
+                del off[i].fitness.values
+        n = evaluate_invalid(off, tb.evaluate, mapper)
+        st["halloffame"].update(off)
+        st["population"] = off
+        self.record(st, off, n)
+        return st
+
+
+# ---- 5b. evolution strategy on float32 numpy individuals --------------------------------------------
+
+def _np_similar(a, b):
+    return bool(numpy.array_equal(a, b))
+
+
+class ESNumpy32(Family):
+    name = "es_np32"
+    N, MU = 5, 8
+    SMALL = {"MU": 4}
+
+    def setup(self):
+        tb = self.toolbox
+        tb.register("evaluate", eval_np_sphere)
+        tb.register("mate", tools.cxBlend, alpha=0.3)
+        tb.register("mutate", tools.mutGaussian, mu=0.0, sigma=0.3, indpb=0.5)
+        tb.register("select", tools.selTournament, tournsize=2)
+
+    def init(self, seed, mapper=map):
+        seed_all(seed)
+        pop = [IndNP32(numpy.random.uniform(-2, 2, self.N).astype(numpy.float32)) for _ in range(self.MU)]
+        st = {"gen": 0, "population": pop, "halloffame": tools.HallOfFame(2, similar=_np_similar),
+              "logbook": tools.Logbook()}
+        n = evaluate_invalid(pop, self.toolbox.evaluate, mapper)
+        st["halloffame"].update(pop)
+        self.record(st, pop, n)
+        return st
+
+    def step(self, st, mapper=map):
+        tb = self.toolbox
+        st["gen"] += 1
+        off = tb.select(st["population"], len(st["population"]))
+        off = algorithms.varAnd(off, tb, 0.5, 0.6)
         n = evaluate_invalid(off, tb.evaluate, mapper)
         st["halloffame"].update(off)
         st["population"] = off
@@ -427,6 +483,18 @@ class CMAES(CMAFamily):
         return cma.Strategy(centroid=[2.0, -1.0, 0.5, 3.0], sigma=1.5, lambda_=self.LAMBDA)
 
 
+class CMAESBig(CMAFamily):
+    """Large dimension, small lambda: the covariance matrix changes slowly, so anything that refreshes the
+    eigendecomposition lazily (or re-derives B, diagD, BD on restore) is exposed by a resume."""
+    name = "cma_es_big"
+    LAMBDA = 6
+    NGEN = 6
+    SMALL = {"LAMBDA": 4}
+
+    def make_strategy(self, mapper):
+        return cma.Strategy(centroid=[((3 * i) % 7) - 3.0 for i in range(30)], sigma=0.8, lambda_=self.LAMBDA)
+
+
 class CMA1pL(CMAFamily):
     name = "cma_1pl"
     LAMBDA = 6
@@ -441,15 +509,16 @@ class CMA1pL(CMAFamily):
 class MOCMA(CMAFamily):
     name = "mo_cma"
     LAMBDA = 6
-    SMALL = {"LAMBDA": 3}
+    MU = 6
+    SMALL = {"LAMBDA": 3, "MU": 3}
     ind_class = IndCMA2
     evaluate = staticmethod(eval_zdt1)
 
     def make_strategy(self, mapper):
-        pop = [IndCMA2(x) for x in numpy.random.uniform(0, 1, (self.LAMBDA, 4))]
+        pop = [IndCMA2(x) for x in numpy.random.uniform(0, 1, (self.MU, 4))]
         for ind, fit in zip(pop, mapper(eval_zdt1, pop)):
             ind.fitness.values = fit
-        return cma.StrategyMultiObjective(pop, sigma=0.5, mu=self.LAMBDA, lambda_=self.LAMBDA)
+        return cma.StrategyMultiObjective(pop, sigma=0.5, mu=self.MU, lambda_=self.LAMBDA)
 
     def step(self, st, mapper=map):
         st["gen"] += 1
@@ -461,6 +530,60 @@ class MOCMA(CMAFamily):
         st["strategy"].update(pop)
         st["population"] = pop
         self.record(st, pop, n)
+        return st
+
+
+class MOCMALt(MOCMA):
+    """mu < lambda: `generate` draws the parents at random from the first front (the `else` branch)."""
+    name = "mo_cma_lt"
+    MU, LAMBDA = 3, 6
+    SMALL = {"LAMBDA": 4, "MU": 2}
+
+
+class MOCMAGt(MOCMA):
+    """mu > lambda."""
+    name = "mo_cma_gt"
+    MU, LAMBDA = 6, 3
+    SMALL = {"LAMBDA": 2, "MU": 4}
+
+
+# ---- GA whose logbook is STREAMED (as `verbose=True` does) and whose statistics are MultiStatistics chapters:
+#      buffindex / header_streamed / chapters / columns_len are live state across a checkpoint --------------------
+
+def _ind_size(ind):
+    return sum(ind)
+
+
+class GAStream(GAList):
+    name = "ga_stream"
+    EVERY = 2
+
+    def setup(self):
+        GAList.setup(self)
+        fit = tools.Statistics(lambda ind: ind.fitness.values)
+        ones = tools.Statistics(_ind_size)
+        self.stats = tools.MultiStatistics(fitness=fit, ones=ones)
+        self.stats.register("avg", numpy.mean)
+        self.stats.register("max", numpy.max)
+
+    def init(self, seed, mapper=map):
+        seed_all(seed)
+        pop = self.toolbox.population(n=self.MU)
+        lb = tools.Logbook()
+        lb.header = "gen", "nevals", "fitness", "ones"
+        lb.chapters["fitness"].header = "avg", "max"
+        lb.chapters["ones"].header = "max", "avg"
+        st = {"gen": 0, "population": pop, "halloffame": tools.HallOfFame(3), "logbook": lb, "streamed": []}
+        n = evaluate_invalid(pop, self.toolbox.evaluate, mapper)
+        st["halloffame"].update(pop)
+        self.record(st, pop, n)
+        st["streamed"].append(lb.stream)                 # generation 0 is printed at once (header + first row)
+        return st
+
+    def step(self, st, mapper=map):
+        st = GAList.step(self, st, mapper)
+        if st["gen"] % self.EVERY == 0:
+            st["streamed"].append(st["logbook"].stream)  # only the rows not printed yet
         return st
 
 
@@ -542,7 +665,9 @@ def shared_inputs_fp():
 
 
 FAMILIES = dict((f.name, f) for f in (GAList, NSGA2, SPEA2, NSGA3Mem, GPEph, CMAES, CMA1pL, MOCMA,
-                                       CMAESShared, CMA1pLShared, MOCMAShared))
+                                       CMAESShared, CMA1pLShared, MOCMAShared, ESNumpy32, CMAESBig,
+                                       MOCMALt, MOCMAGt, GAStream))
+EXTRA = ["es_np32", "cma_es_big", "mo_cma_lt", "mo_cma_gt", "ga_stream"]
 
 
 def ngen_for(family, default):
@@ -563,7 +688,10 @@ def fp_value(v, depth=0):
     if depth > 12:
         return "deep"
     if isinstance(v, numpy.ndarray):
-        return ["nd", str(v.dtype), list(v.shape), _h(numpy.ascontiguousarray(v).tobytes())]
+        body = ["nd", str(v.dtype), list(v.shape), _h(numpy.ascontiguousarray(v).tobytes())]
+        if hasattr(v, "fitness"):
+            return ["ind", type(v).__name__, body, fp_fit(v), fp_attrs(v, depth)]
+        return body
     if isinstance(v, (numpy.generic,)):
         return ["np", str(v.dtype), repr(v.item())]
     if isinstance(v, float):
@@ -579,8 +707,8 @@ def fp_value(v, depth=0):
         return ["hof", [fp_value(x, depth + 1) for x in v.items], [fp_value(k, depth + 1) for k in v.keys]]
     if isinstance(v, tools.Logbook):
         return ["logbook", [sorted([k, fp_value(x, depth + 1)] for k, x in row.items()) for row in v],
-                sorted([k, fp_value(c, depth + 1)] for k, c in v.chapters.items()), v.buffindex,
-                fp_value(v.header, depth + 1), fp_value(v.columns_len, depth + 1)]
+                sorted([k, fp_value(c, depth + 1)] for k, c in v.chapters.items()),
+                sorted([k, fp_value(x, depth + 1)] for k, x in vars(v).items() if k != "chapters")]
     if isinstance(v, (list, tuple, _array.array)):
         body = [fp_value(x, depth + 1) for x in v]
         if hasattr(v, "fitness"):
